@@ -13,11 +13,15 @@ Section Lin.
   Variable ident : F -> O -> bool.
   Variable prog : O -> list (instr F).
   Variable fn_of : O -> F.
+  Variable is_read : O -> bool.
 
-  (* every operation is: reg := Load; retry from the Load until CAS(reg, f reg) succeeds *)
-  Hypothesis Hprog : forall o, prog o = [ILoad; ICas (fn_of o) 0].
+  (* every operation is either an update: reg := Load; retry from the Load until
+     CAS(reg, f reg) succeeds - or read-only: one Load, at which it is linearised *)
+  Hypothesis Hprog : forall o, prog o = if is_read o then [IRead] else [ILoad; ICas (fn_of o) 0].
   (* when the derived pointer is the loaded pointer, the value is the loaded value *)
   Hypothesis Hident : forall f o v, ident f o = true -> pure f o v = v.
+  (* a read-only operation means the identity on the shared value *)
+  Hypothesis Hread : forall o v, is_read o = true -> pure (fn_of o) o v = v.
 
   Notation thread := (thread O V).
   Notation mstate := (mstate O V).
@@ -29,9 +33,22 @@ Section Lin.
 
   Definition pending (ths : list thread) : list O := concat (map t_ops ths).
 
+  Definition updating (th : thread) : Prop :=
+    exists o rest, t_ops th = o :: rest /\ is_read o = false.
+
   Definition thread_ok (cell : nat * V) (th : thread) : Prop :=
     t_pc th = 0 \/
-    (t_pc th = 1 /\ fst (t_reg th) <= fst cell /\ (fst (t_reg th) = fst cell -> t_reg th = cell)).
+    (t_pc th = 1 /\ updating th
+     /\ fst (t_reg th) <= fst cell /\ (fst (t_reg th) = fst cell -> t_reg th = cell)).
+
+  Lemma Hprog_upd : forall o, is_read o = false -> prog o = [ILoad; ICas (fn_of o) 0].
+  Proof. intros o H. rewrite Hprog, H. reflexivity. Qed.
+
+  Lemma Hprog_read : forall o, is_read o = true -> prog o = [IRead].
+  Proof. intros o H. rewrite Hprog, H. reflexivity. Qed.
+
+  Lemma updating_head : forall th o rest, t_ops th = o :: rest -> updating th -> is_read o = false.
+  Proof. intros th o rest H (o' & rest' & H' & Hr). rewrite H in H'. injection H' as -> _. exact Hr. Qed.
 
   Notation untag := (untag O).
   Notation ops_of := (ops_of O).
@@ -98,18 +115,35 @@ Section Lin.
       repeat split; try assumption.
       - rewrite (pending_same _ _ th th Hth eq_refl). exact Hperm.
       - apply set_nth_Forall; assumption. }
-    rewrite Hprog in Hstep.
-    destruct Hthok as [Hpc | (Hpc & Hle & Heq)]; rewrite Hpc in Hstep; cbn [nth_error] in Hstep.
+    destruct (is_read o) eqn:Hrd.
+    { (* read-only operation: linearised at its Load, the cell stays as it is *)
+      assert (Hpc : t_pc th = 0).
+      { destruct Hthok as [Hpc | (_ & Hu & _)]; [exact Hpc|].
+        rewrite (updating_head th o rest Hops Hu) in Hrd. discriminate. }
+      rewrite (Hprog_read o Hrd), Hpc in Hstep. cbn [nth_error] in Hstep.
+      unfold advance in Hstep. rewrite (Hprog_read o Hrd) in Hstep. cbn in Hstep.
+      inversion Hstep; subst. unfold Inv. cbn [m_cell m_next m_threads tag].
+      repeat split.
+      - rewrite untag_snoc, fold_left_snoc, <- Hcell. unfold apply_op. rewrite Hread by exact Hrd. reflexivity.
+      - rewrite untag_snoc, <- app_assoc. cbn.
+        eapply Permutation_trans; [|exact Hperm].
+        apply Permutation_app_head. apply Permutation_sym.
+        eapply pending_pop; [exact Hth | exact Hops | reflexivity].
+      - exact Hnext.
+      - apply set_nth_Forall; [assumption|]. left. reflexivity. }
+    rewrite (Hprog_upd o Hrd) in Hstep.
+    destruct Hthok as [Hpc | (Hpc & _ & Hle & Heq)]; rewrite Hpc in Hstep; cbn [nth_error] in Hstep.
     - (* Load *)
-      unfold advance in Hstep. rewrite Hprog in Hstep. cbn in Hstep.
+      unfold advance in Hstep. rewrite (Hprog_upd o Hrd) in Hstep. cbn in Hstep.
       inversion Hstep; subst. unfold Inv. cbn [m_cell m_next m_threads tag]. rewrite app_nil_r.
       repeat split; try assumption.
       + erewrite pending_same; [exact Hperm | exact Hth | cbn; symmetry; exact Hops].
       + apply set_nth_Forall; [assumption|]. right. cbn. repeat split; auto.
+        exists o, rest. split; [reflexivity | exact Hrd].
     - (* CompareAndSwap *)
       destruct (fst (m_cell st) =? fst (t_reg th)) eqn:Hcmp.
       + apply Nat.eqb_eq in Hcmp. symmetry in Hcmp. specialize (Heq Hcmp).
-        unfold new_ptr, advance in Hstep. rewrite Hprog in Hstep. cbn [length Nat.leb] in Hstep.
+        unfold new_ptr, advance in Hstep. rewrite (Hprog_upd o Hrd) in Hstep. cbn [length Nat.leb] in Hstep.
         destruct (ident (fn_of o) o) eqn:Hid.
         * (* the derived pointer is the loaded one: the cell does not change *)
           inversion Hstep; subst. unfold Inv. cbn [m_cell m_next m_threads tag].
@@ -134,8 +168,8 @@ Section Lin.
           -- cbn. lia.
           -- apply set_nth_Forall; [|left; reflexivity].
              eapply Forall_impl; [|exact Hok].
-             intros a [Ha | (Ha & Hale & Haeq)]; [left; exact Ha|].
-             right. cbn. repeat split; [exact Ha | lia | intros E; lia].
+             intros a [Ha | (Ha & Hau & Hale & Haeq)]; [left; exact Ha|].
+             right. cbn. repeat split; [exact Ha | exact Hau | lia | intros E; lia].
       + (* CAS failed: back to the Load *)
         inversion Hstep; subst. unfold Inv. cbn [m_cell m_next m_threads tag]. rewrite app_nil_r.
         repeat split; try assumption.
@@ -242,13 +276,21 @@ Section Lin.
     destruct (t_ops th) as [|o rest] eqn:Hops.
     { inversion Hstep; subst. cbn [tag]. rewrite app_nil_r.
       eapply Ord_keep; [exact HO | exact Hth | reflexivity]. }
-    rewrite Hprog in Hstep.
-    destruct Hthok as [Hpc | (Hpc & _ & _)]; rewrite Hpc in Hstep; cbn [nth_error] in Hstep.
-    - unfold advance in Hstep. rewrite Hprog in Hstep. cbn in Hstep.
+    destruct (is_read o) eqn:Hrd.
+    { assert (Hpc : t_pc th = 0).
+      { destruct Hthok as [Hpc | (_ & Hu & _)]; [exact Hpc|].
+        rewrite (updating_head th o rest Hops Hu) in Hrd. discriminate. }
+      rewrite (Hprog_read o Hrd), Hpc in Hstep. cbn [nth_error] in Hstep.
+      unfold advance in Hstep. rewrite (Hprog_read o Hrd) in Hstep. cbn in Hstep.
+      inversion Hstep; subst. cbn [tag].
+      eapply Ord_pop; [exact HO | exact Hth | exact Hops | reflexivity]. }
+    rewrite (Hprog_upd o Hrd) in Hstep.
+    destruct Hthok as [Hpc | (Hpc & _ & _ & _)]; rewrite Hpc in Hstep; cbn [nth_error] in Hstep.
+    - unfold advance in Hstep. rewrite (Hprog_upd o Hrd) in Hstep. cbn in Hstep.
       inversion Hstep; subst. rewrite app_nil_r.
       eapply Ord_keep; [exact HO | exact Hth | cbn; symmetry; exact Hops].
     - destruct (fst cell =? fst (t_reg th)).
-      + unfold new_ptr, advance in Hstep. rewrite Hprog in Hstep. cbn [length Nat.leb] in Hstep.
+      + unfold new_ptr, advance in Hstep. rewrite (Hprog_upd o Hrd) in Hstep. cbn [length Nat.leb] in Hstep.
         destruct (ident (fn_of o) o); inversion Hstep; subst; cbn [tag];
           (eapply Ord_pop; [exact HO | exact Hth | exact Hops | reflexivity]).
       + inversion Hstep; subst. cbn [tag]. rewrite app_nil_r.
@@ -315,7 +357,7 @@ Section Lin.
     destruct (nth_error (m_threads st) s) as [th|]; [|inversion Hstep; subst; reflexivity].
     unfold LogConc.step_thread in Hstep.
     destruct (t_ops th) as [|o rest]; [inversion Hstep; subst; reflexivity|].
-    destruct (nth_error (prog o) (t_pc th)) as [[|f|f k]|].
+    destruct (nth_error (prog o) (t_pc th)) as [[|f|f k|]|].
     - inversion Hstep; subst. reflexivity.
     - destruct (new_ptr O V F pure ident (m_next st) f o (t_reg th)) as [c' n'].
       inversion Hstep.
@@ -323,39 +365,48 @@ Section Lin.
       + destruct (new_ptr O V F pure ident (m_next st) f o (t_reg th)) as [c' n'].
         inversion Hstep.
       + inversion Hstep; subst. reflexivity.
+    - inversion Hstep.
     - inversion Hstep; subst. reflexivity.
   Qed.
 
   (* the three kinds of own steps of a thread with a pending operation *)
+  Lemma step_read : forall st t th o rest,
+    nth_error (m_threads st) t = Some th -> t_ops th = o :: rest -> t_pc th = 0 -> is_read o = true ->
+    exists st1, step st t = (st1, [(t, o)]).
+  Proof.
+    intros st t th o rest Hth Hops Hpc Hrd. unfold LogConc.step, LogConc.step_thread.
+    rewrite Hth, Hops, (Hprog_read o Hrd), Hpc. cbn [nth_error]. eexists. reflexivity.
+  Qed.
+
   Lemma step_load : forall st t th o rest,
-    nth_error (m_threads st) t = Some th -> t_ops th = o :: rest -> t_pc th = 0 ->
+    nth_error (m_threads st) t = Some th -> t_ops th = o :: rest -> t_pc th = 0 -> is_read o = false ->
     step st t = ({| m_cell := m_cell st; m_next := m_next st;
                     m_threads := set_nth t {| t_ops := o :: rest; t_pc := 1; t_reg := m_cell st |}
                                          (m_threads st) |}, []).
   Proof.
-    intros st t th o rest Hth Hops Hpc. unfold LogConc.step, LogConc.step_thread.
-    rewrite Hth, Hops, Hprog, Hpc. cbn [nth_error]. unfold advance. rewrite Hprog. reflexivity.
+    intros st t th o rest Hth Hops Hpc Hrd. unfold LogConc.step, LogConc.step_thread.
+    rewrite Hth, Hops, (Hprog_upd o Hrd), Hpc. cbn [nth_error]. unfold advance. rewrite (Hprog_upd o Hrd). reflexivity.
   Qed.
 
   Lemma step_cas_fail : forall st t th o rest,
-    nth_error (m_threads st) t = Some th -> t_ops th = o :: rest -> t_pc th = 1 ->
+    nth_error (m_threads st) t = Some th -> t_ops th = o :: rest -> t_pc th = 1 -> is_read o = false ->
     (fst (m_cell st) =? fst (t_reg th)) = false ->
     step st t = ({| m_cell := m_cell st; m_next := m_next st;
                     m_threads := set_nth t {| t_ops := o :: rest; t_pc := 0; t_reg := t_reg th |}
                                          (m_threads st) |}, []).
   Proof.
-    intros st t th o rest Hth Hops Hpc Hne. unfold LogConc.step, LogConc.step_thread.
-    rewrite Hth, Hops, Hprog, Hpc. cbn [nth_error]. rewrite Hne. reflexivity.
+    intros st t th o rest Hth Hops Hpc Hrd Hne. unfold LogConc.step, LogConc.step_thread.
+    rewrite Hth, Hops, (Hprog_upd o Hrd), Hpc. cbn [nth_error]. rewrite Hne. reflexivity.
   Qed.
 
   Lemma step_cas_ok : forall st t th o rest,
-    nth_error (m_threads st) t = Some th -> t_ops th = o :: rest -> t_pc th = 1 ->
+    nth_error (m_threads st) t = Some th -> t_ops th = o :: rest -> t_pc th = 1 -> is_read o = false ->
     (fst (m_cell st) =? fst (t_reg th)) = true ->
     exists st1, step st t = (st1, [(t, o)]) /\ t_ops_of t (m_threads st1) = rest.
   Proof.
-    intros st t th o rest Hth Hops Hpc Heq. unfold LogConc.step, LogConc.step_thread.
-    rewrite Hth, Hops, Hprog, Hpc. cbn [nth_error]. rewrite Heq.
-    unfold advance. rewrite Hprog. cbn [length Nat.leb].
+    intros st t th o rest Hth Hops Hpc Hrd Heq. unfold LogConc.step, LogConc.step_thread.
+    rewrite Hth, Hops, (Hprog_upd o Hrd), Hpc. cbn [nth_error]. rewrite Heq.
+    unfold advance. rewrite (Hprog_upd o Hrd). cbn [length Nat.leb].
     destruct (new_ptr O V F pure ident (m_next st) (fn_of o) o (t_reg th)) as [c' n'].
     eexists. split; [reflexivity|]. cbn. unfold t_ops_of.
     rewrite (nth_error_set_nth_same _ _ _ _ Hth). reflexivity.
@@ -386,9 +437,16 @@ Section Lin.
       rewrite Nat.eqb_refl in Hneed.
       destruct HI as (_ & _ & _ & Hok). pose proof (nth_error_Forall _ _ _ _ Hok Hth) as Hthok.
       unfold LogConc.need in Hneed.
+      destruct (is_read o) eqn:Hrd.
+      { (* a read-only operation completes with its one Load *)
+        assert (Hpc : t_pc th = 0).
+        { destruct Hthok as [Hpc | (_ & Hu & _)]; [exact Hpc|].
+          rewrite (updating_head th o rest Hops Hu) in Hrd. discriminate. }
+        destruct (step_read st t th o rest Hth Hops Hpc Hrd) as (st1' & Hs').
+        rewrite Hs' in Hs. inversion Hs; subst. left. left. reflexivity. }
       destruct Hthok as [Hpc | (Hpc & _ & _)]; rewrite Hpc in Hneed; cbn [Nat.eqb] in Hneed.
       + (* Load: one CAS away afterwards *)
-        rewrite (step_load st t th o rest Hth Hops Hpc) in Hs. inversion Hs; subst st1 ev. clear Hs.
+        rewrite (step_load st t th o rest Hth Hops Hpc Hrd) in Hs. inversion Hs; subst st1 ev. clear Hs.
         cbn [app].
         eapply (IH _ _ _ _ t {| t_ops := o :: rest; t_pc := 1; t_reg := m_cell st |} o rest _ _ HI1);
           [| reflexivity | | exact Hr].
@@ -396,10 +454,10 @@ Section Lin.
         * unfold LogConc.need. cbn. rewrite Nat.eqb_refl. lia.
       + destruct (fst (m_cell st) =? fst (t_reg th)) eqn:Hcmp.
         * (* CAS succeeds *)
-          destruct (step_cas_ok st t th o rest Hth Hops Hpc Hcmp) as (st1' & Hs' & _).
+          destruct (step_cas_ok st t th o rest Hth Hops Hpc Hrd Hcmp) as (st1' & Hs' & _).
           rewrite Hs' in Hs. inversion Hs; subst. left. left. reflexivity.
         * (* CAS fails: Load and CAS to go *)
-          rewrite (step_cas_fail st t th o rest Hth Hops Hpc Hcmp) in Hs.
+          rewrite (step_cas_fail st t th o rest Hth Hops Hpc Hrd Hcmp) in Hs.
           inversion Hs; subst st1 ev. clear Hs.
           cbn [app].
           eapply (IH _ _ _ _ t {| t_ops := o :: rest; t_pc := 0; t_reg := t_reg th |} o rest _ _ HI1);
@@ -464,6 +522,64 @@ Section Lin.
     destruct (run_cell v0 progs sched st tr Hrun) as (H1 & H2 & H3).
     rewrite (all_returned_pending st Hret), app_nil_r in H2. repeat split; try assumption.
     intros t. specialize (H3 t). rewrite (all_returned_t_ops st t Hret), app_nil_r in H3. exact H3.
+  Qed.
+
+  (* ---------------- what every linearisation point sees ---------------- *)
+  Lemma step_ev_cases : forall st t st1 ev, step st t = (st1, ev) -> ev = [] \/ exists o, ev = [(t, o)].
+  Proof.
+    intros st t st1 ev Hstep. unfold LogConc.step in Hstep.
+    destruct (nth_error (m_threads st) t) as [th|]; [|inversion Hstep; left; reflexivity].
+    destruct (step_thread (m_cell st) (m_next st) th) as [[[c n] th'] [o|]];
+      inversion Hstep; subst; cbn; [right; exists o; reflexivity | left; reflexivity].
+  Qed.
+
+  Lemma firstn_untag_app : forall (a b : list (nat * O)),
+    firstn (length a) (untag (a ++ b)) = untag a.
+  Proof.
+    intros a b. unfold LogConc.untag. rewrite map_app.
+    rewrite <- (map_length snd a). rewrite firstn_app, Nat.sub_diag, firstn_all. cbn. apply app_nil_r.
+  Qed.
+
+  (* [run_vals] lists, in linearisation order, the shared value at each linearisation point
+     (the value an update installed / the value a read-only operation loaded): it is the
+     sequential application of exactly the operations linearised up to and including that one *)
+  Lemma run_vals_from : forall sched v0 all st tr0 st2 tr,
+    Inv v0 all st tr0 -> run st sched = (st2, tr) ->
+    run_vals O V F pure ident prog st sched
+    = map (fun k => fold_left apply_op (firstn k (untag (tr0 ++ tr))) v0)
+          (seq (S (length tr0)) (length tr)).
+  Proof.
+    induction sched as [|t sched IH]; intros v0 all st tr0 st2 tr HI Hrun; cbn in Hrun.
+    - inversion Hrun; subst. reflexivity.
+    - cbn [LogConc.run_vals].
+      destruct (step st t) as [st1 ev] eqn:Hs. destruct (run st1 sched) as [st3 tr3] eqn:Hr.
+      inversion Hrun; subst st3 tr. clear Hrun.
+      pose proof (Inv_step _ _ _ _ _ _ _ HI Hs) as HI1.
+      rewrite (IH v0 all st1 (tr0 ++ ev) st2 tr3 HI1 Hr).
+      destruct (step_ev_cases _ _ _ _ Hs) as [-> | (o & ->)].
+      + cbn [map app]. rewrite !app_nil_r. reflexivity.
+      + cbn [map app length]. rewrite app_length. cbn [length]. rewrite Nat.add_1_r.
+        rewrite <- app_assoc. cbn [app]. f_equal.
+        destruct HI1 as (Hc & _). rewrite Hc.
+        replace (tr0 ++ (t, o) :: tr3) with ((tr0 ++ [(t, o)]) ++ tr3) by (rewrite <- app_assoc; reflexivity).
+        replace (S (length tr0)) with (length (tr0 ++ [(t, o)])) by (rewrite app_length; cbn; lia).
+        cbn [seq map]. rewrite firstn_untag_app. reflexivity.
+  Qed.
+
+  Theorem run_vals_spec : forall v0 progs sched st tr,
+    run (init_state O V v0 progs) sched = (st, tr) ->
+    length (run_vals O V F pure ident prog (init_state O V v0 progs) sched) = length tr
+    /\ forall i, i < length tr ->
+         nth i (run_vals O V F pure ident prog (init_state O V v0 progs) sched) v0
+         = fold_left apply_op (firstn (S i) (untag tr)) v0.
+  Proof.
+    intros v0 progs sched st tr Hrun.
+    rewrite (run_vals_from sched v0 (concat progs) _ [] st tr (Inv_init v0 progs) Hrun).
+    cbn [length app]. split; [rewrite map_length, seq_length; reflexivity|].
+    intros i Hi.
+    set (g := fun k => fold_left apply_op (firstn k (untag tr)) v0).
+    rewrite (nth_indep _ v0 (g 0)) by (rewrite map_length, seq_length; exact Hi).
+    rewrite (map_nth g), seq_nth by exact Hi. reflexivity.
   Qed.
 
   (* reachable = the state after some schedule from the initial state *)
